@@ -6,6 +6,8 @@
 //                       p <pin> us us   (pulseIn echo durations; 0 = timeout)
 //                       x <ms>          (extra milliseconds added to the clock before every loop pass)
 //                       t <ms>          (clock value at start of setup)
+//                       s <k> b b b     (bytes, decimal, that have arrived on the serial line when the k-th read of the line
+//                                        starts; k = 1, 2, ...; several lines for one k are concatenated)
 #include <cstdarg>
 #include <vector>
 #include <map>
@@ -91,8 +93,24 @@ void SerialT::print(const char *v) { wline("wp", "s", v, true); }
 void SerialT::print(int v) { wline("wp", "i", std::to_string(v).c_str(), false); }
 void SerialT::print(long v) { wline("wp", "i", std::to_string(v).c_str(), false); }
 void SerialT::print(double v, int d) { char b[64]; snprintf(b, sizeof b, "%.*f", d, v); wline("wp", "f", b, false); }
-String SerialT::readStringUntil(char) { __ev("{\"e\":\"sread\"}"); return String(""); }
-int SerialT::available() { return 0; }
+// Serial input: the bytes scripted for read k are appended to the receive buffer when read k starts; readStringUntil consumes
+// up to and including the terminator (which it discards) or, when there is none, everything (the time-out of the real core).
+static std::map<int, std::string> ser_sched;
+static std::string ser_buf;
+static int ser_reads = 0;
+String SerialT::readStringUntil(char term) {
+  ++ser_reads;
+  auto it = ser_sched.find(ser_reads);
+  if (it != ser_sched.end()) ser_buf += it->second;
+  size_t pos = ser_buf.find(term);
+  std::string got = pos == std::string::npos ? ser_buf : ser_buf.substr(0, pos);
+  ser_buf = pos == std::string::npos ? std::string() : ser_buf.substr(pos + 1);
+  printf("{\"e\":\"sread\",\"n\":%d,\"to\":%d,\"r\":[", ser_reads, pos == std::string::npos ? 1 : 0);
+  for (size_t i = 0; i < got.size(); ++i) printf(i ? ",%d" : "%d", (int)(unsigned char)got[i]);
+  puts("]}");
+  String out; out.s = got; return out;
+}
+int SerialT::available() { return (int)ser_buf.size(); }
 
 // ---- pins / time ----
 void pinMode(int p, int m) { __ev("{\"e\":\"pm\",\"p\":%d,\"m\":%d}", p, m); }
@@ -188,6 +206,7 @@ static void load_inputs(const char *path) {
     if (k == 'x') { extra_per_pass = vals; continue; }
     if (k == 't') { now_ms = (unsigned long)vals[0]; continue; }
     if (k == 'h') { heap_trace = vals[0] != 0; continue; }
+    if (k == 's') { for (size_t i = 1; i < vals.size(); ++i) ser_sched[(int)vals[0]] += (char)vals[i]; continue; }
     int pin = (int)vals[0]; vals.erase(vals.begin());
     auto &m = k == 'd' ? in_d : k == 'a' ? in_a : in_p;
     for (long v : vals) m[pin].push_back(v);
